@@ -4,7 +4,7 @@
    its task and carry the same value; final state = implementation's result),
    and the certified checker judges the implementation's output and trace.
    Depends on the model only (not on the proofs). *)
-From Coupe Require Import Lib.Prelude Lib.SFloat Lib.Report Model.ArcSwap Model.ArcSwapF64.
+From Coupe Require Import Lib.Prelude Lib.SFloat Lib.Report Model.ArcSwap Model.ArcSwapF64 Gen.ArcSwapGen.
 Open Scope Z_scope.
 
 Record case05 := mk05 {
@@ -51,12 +51,13 @@ Definition eval05i (c : case05) : verdict :=
     else true in
   (* correspondence: the machine, started as arc_swap starts, accepts every recorded event and
      ends (outer loop left) in the implementation's final partition and Metadata.  The machine runs
-     with [headroom_checked]: the f64 share of arc_swap, rejected where it is not the exact quotient *)
+     with the share in the form the translator read from the source ([share_i64_run]: the exact quotient
+     when the code divides in W; the f64 round trip, rejected where it is not the exact quotient, otherwise) *)
   let corr :=
     if f64w then true else
     match c_impl c, cap, tr with
     | IOk p, Some cp, Some evs =>
-      let cf := config_of headroom_checked g (c_vw c) (c_p0 c) (c_threads c) cp in
+      let cf := config_of (share_i64_run arcswap_share_in_W) g (c_vw c) (c_p0 c) (c_threads c) cp in
       match init_state cf (c_p0 c) with
       | None => false
       | Some st0 =>
